@@ -6,6 +6,7 @@ import (
 	"regexp"
 	"strconv"
 	"strings"
+	"time"
 
 	"verif/internal/h"
 	"verif/internal/model"
@@ -807,6 +808,45 @@ func runC12(c *h.Ctx) {
 			}
 			for _, b := range dts {
 				checkCompare(c, a, b, true, zone, rel)
+			}
+		}
+	}
+	// ... and around the daylight-saving changes of named context zones: zone-less
+	// timestamps every half hour from the noon before to the noon after a
+	// change, each against the same reading with the zone's two offsets written
+	// out and against its neighbours half an hour and an hour away
+	{
+		type edge struct{ zone, day, std, dst string }
+		edges := []edge{
+			{"America/New_York", "2023-03-12", "-05:00", "-04:00"}, {"America/New_York", "2023-11-05", "-05:00", "-04:00"},
+			{"Europe/Berlin", "2023-03-26", "+01:00", "+02:00"}, {"Europe/Berlin", "2023-10-29", "+01:00", "+02:00"},
+			{"Australia/Lord_Howe", "2023-04-02", "+10:30", "+11:00"}, {"Australia/Lord_Howe", "2023-10-01", "+10:30", "+11:00"},
+			{"Pacific/Auckland", "2023-04-02", "+12:00", "+13:00"}, {"Pacific/Auckland", "2023-09-24", "+12:00", "+13:00"},
+		}
+		k := 0
+		for _, e := range edges {
+			if _, err := time.LoadLocation(e.zone); err != nil {
+				c.Count("dst.zone-unavailable", 1)
+				continue
+			}
+			day, _ := time.Parse("2006-01-02", e.day)
+			rel := map[[2]string]int{}
+			for half := -24; half <= 72; half++ {
+				k++
+				if !c.Mine(k) {
+					continue
+				}
+				w := day.Add(time.Duration(half) * 30 * time.Minute)
+				a := dtStr{w.Format("2006-01-02T15:04:05"), "timestamp"}
+				for _, d := range []int{0, -1, 1, -2, 2} {
+					wb := w.Add(time.Duration(d) * 30 * time.Minute).Format("2006-01-02T15:04:05")
+					for _, off := range []string{e.std, e.dst} {
+						b := dtStr{wb + off, "timestamptz"}
+						checkCompare(c, a, b, true, e.zone, rel)
+						checkCompare(c, b, a, true, e.zone, rel)
+					}
+				}
+				c.Count("dst.edge-readings", 1)
 			}
 		}
 	}
